@@ -132,3 +132,10 @@ CHECKS["C20"] = dict(
     note="Rate limiting by design is not a violation (only the first query of a fresh limited client is required when a rate parameter is mutated); 1 ns / 1 B values are legal positives; interface listeners are omitted from the base configuration. Five parse-level findings (negative sizes rejected without naming the key) are recorded in known_findings.json.",
     ref="2/C20",
 )
+CHECKS["C06"] = dict(
+    level="exploration",
+    technique="runtime monitoring: real listeners (UDP, TCP, DoT, DoQ, DoH POST/GET) warmed with recognisable traffic, then probed with short / count-inflated / mis-framed / segmented messages and back-to-back bursts; two oracles: warmed-vs-fresh-listener differential and an own-bytes reference (unpack exactly the bytes sent); real forward.UpstreamPlain against a scripted stub replying with cut / inflated / mis-framed replies; race detector",
+    text="About 13k warmed and 534 fresh probe observations, 10k overlap-burst responses and 1.8k upstream exchanges per quick run: an undecodable or incomplete message must never be answered with a question/records, every response must carry the ID and question of its own request and no bytes of the warming traffic or of another in-flight request, and Exchange must return an error or exactly the records present in the reply's own bytes.",
+    note="sync.Pool reuse is probabilistic: probes are repeated (R=8, part of the run under GOMAXPROCS=2); the own-bytes oracle does not depend on hitting a dirty buffer. DNSCrypt has no pooled read buffer in the repository and is not covered.",
+    ref="2/C06",
+)
